@@ -75,7 +75,7 @@ def add(P, kind, n, m, tier, multi=False, cap=600, unwind=26, mem=6):
         names = SETQ if kind == 'set_queries' else (MULTIQ if kind == 'multiset_queries' else ITERQ)
         heavy = ('select_zero', 'one_iter', 'fwd', 'bwd', 'select_zero_iter', 'access')
         for q, qn in enumerate(names):
-            inst(P, '%s_%s_%s_n%d_m%d' % (P.lower(), kind.split('_')[0] if kind != 'set_iters' else 'iter', qn, n, m), W('c02::%s(%%d, %%d, %%d, %%d)' % kind, n, m, multi, q), tier=('deep' if (tier == 'thorough' and qn in heavy and n != 1 << 32) else ('thorough' if (tier == 'quick' and qn == 'select_zero_iter' and n >= 1 << 32) else tier)), unwind=unwind,
+            inst(P, '%s_%s_%s_n%d_m%d' % (P.lower(), kind.split('_')[0] if kind != 'set_iters' else 'iter', qn, n, m), W('c02::%s(%%d, %%d, %%d, %%d)' % kind, n, m, multi, q), tier=(('deep' if qn == 'select_zero_iter' else 'thorough') if tier == 'full' else ('deep' if (tier == 'thorough' and qn in heavy and n != 1 << 32) else ('thorough' if (tier == 'quick' and qn == 'select_zero_iter' and n >= 1 << 32) else tier))), unwind=unwind,
                  stubs=SPARSE, cap=cap, cap_thorough=3600, mem=(20 if n == 12 and qn == 'select_zero_iter' else 14) if qn in heavy else mem, weight=m * 10 + (50 if qn in heavy else 1),
                  desc='SparseVector (%s) %s: universe %d, %d symbolic positions, real low width, argument over all usize' % (kind.split('_')[0], qn, n, m),
                  shape={'universe': n, 'ones': m, 'query': qn}).unwindset = LazyUW(n, m, multi)
@@ -86,12 +86,12 @@ def add(P, kind, n, m, tier, multi=False, cap=600, unwind=26, mem=6):
 
 
 P = 'C02'
-for (n, m, tier) in ((0, 0, 'quick'), (1, 0, 'thorough'), (1, 1, 'quick'), (6, 2, 'quick'), (12, 3, 'thorough'), (16, 2, 'deep'), (5, 5, 'deep'), (16, 4, 'deep'), (64, 2, 'deep'),
+for (n, m, tier) in ((0, 0, 'quick'), (1, 0, 'thorough'), (1, 1, 'quick'), (6, 2, 'quick'), (12, 3, 'thorough'), (16, 2, 'deep'), (5, 5, 'full'), (16, 4, 'deep'), (64, 2, 'deep'),
                      (1 << 32, 2, 'thorough'), (1 << 63, 3, 'deep'), (1 << 63, 2, 'quick'), ((1 << 64) - 1, 1, 'quick'), ((1 << 64) - 1, 3, 'deep'),
                      (64, 17, 'deep'), (64, 20, 'deep')):
     add(P, 'set_queries', n, m, tier, cap=900)
     if n <= 64 or m <= 2:
-        add(P, 'set_iters', n, m, tier if m <= 4 else 'deep', cap=900)
+        add(P, 'set_iters', n, m, tier if (m <= 4 or tier == 'full') else 'deep', cap=900)
 for (n, m, tier) in ((0, 0, 'quick'), (5, 0, 'thorough'), (3, 1, 'quick'), (6, 2, 'deep'), (12, 3, 'deep'), (5, 5, 'deep'), (16, 2, 'deep')):
     add(P, 'set_bits', n, m, tier, mem=28)
 
